@@ -14,3 +14,11 @@ func (t *RTPTransceiver) VerifCurrentDirection() RTPTransceiverDirection {
 func (t *RTPTransceiver) VerifCurrentRemoteDirection() RTPTransceiverDirection {
 	return t.getCurrentRemoteDirection()
 }
+
+// VerifC08LockICE takes the ICE transport's lock for writing, so that a
+// SetRemoteDescription whose description carries a candidate parks in
+// ICETransport.AddRemoteCandidate until VerifC08UnlockICE.
+func (pc *PeerConnection) VerifC08LockICE() { pc.iceTransport.lock.Lock() }
+
+// VerifC08UnlockICE releases the lock taken by VerifC08LockICE.
+func (pc *PeerConnection) VerifC08UnlockICE() { pc.iceTransport.lock.Unlock() }
